@@ -132,7 +132,7 @@ SLICE_L2 = {"func": ("CalculateThreshold", 1), "from": "hi_bits", "to": "$return
 
 proofs = [
     Proof("Threshold_L2_quick", [SLICE_L2], harness=H_L2 % {"name": "Threshold_L2_quick",
-          "range": "__CPROVER_assume(p2 - p1 <= 4.0);"}, loop_contracts=False, solver="portfolio3", timeout=600,
+          "range": "__CPROVER_assume(p2 - p1 <= 4.0);"}, loop_contracts=False, solver="portfolio3", timeout=1500,
           check_flags=["--conversion-check"],
           desc="L2 restricted to products at most 4 apart (covers every carry pattern between neighbouring integers); full range in the thorough tier"),
     Proof("Threshold_L2", [SLICE_L2], harness=H_L2 % {"name": "Threshold_L2", "range": ""}, loop_contracts=False, solver="portfolio3", timeout=3000,
